@@ -713,7 +713,8 @@ func Check(r *vrep.Report, callsV []uni.Call, tsos []uni.TSOEvent, recs []*work.
 				for _, ti := range req.TxnInfos {
 					check(ti.Txn, ti.Status)
 				}
-			} else {
+			} else if req.StartVersion != 0 {
+				// (a batch resolve over a range without locks is sent with no txn at all: nothing to judge)
 				check(req.StartVersion, req.CommitVersion)
 			}
 		case *kvrpcpb.CheckTxnStatusRequest:
